@@ -142,6 +142,14 @@ func NewUserHash(store *Dir, user string) (u *UserHash) {
 	return
 }
 
+// checkName makes sure that only valid usernames are ever turned into a path
+func (u *UserHash) checkName() error {
+	if !userNameRe.MatchString(u.user) {
+		return fmt.Errorf("whawty.auth.store: username '%s' is invalid", u.user)
+	}
+	return nil
+}
+
 func (u *UserHash) getFilename(isAdmin bool) string {
 	filename := filepath.Join(u.store.BaseDir, u.user)
 	if isAdmin {
@@ -274,6 +282,9 @@ func (u *UserHash) SetAdmin(adminState bool) error {
 
 // Remove deletes hash file.
 func (u *UserHash) Remove() {
+	if err := u.checkName(); err != nil {
+		return
+	}
 	filename := filepath.Join(u.store.BaseDir, u.user)
 	os.Remove(filename + adminExt) //nolint:errcheck
 	os.Remove(filename + userExt)  //nolint:errcheck
@@ -282,6 +293,9 @@ func (u *UserHash) Remove() {
 // Exists checks if user exists. It also returns whether user is an admin. This returns true even if
 // the user's hash file format is not supported
 func (u *UserHash) Exists() (exists bool, isAdmin bool, err error) {
+	if err = u.checkName(); err != nil {
+		return false, false, err
+	}
 	filename := filepath.Join(u.store.BaseDir, u.user)
 
 	if ok, err := fileExists(filename + adminExt); err != nil {
